@@ -375,6 +375,7 @@ def model_check(ctx, pid):
 
 
 GEN2 = {   # additional generator configurations (same MaxLen)
+    "C10": [{"TagNames": '{"tag/a", "tag/b"}', "ConvNames": "{}", "MaxCalls": 8, "MaxViews": 2, "Menu": '"conv"', "Invalid": "FALSE"}],
     "C11": [{"TagNames": '{"tag/a", "tag/b", "service/c"}', "ConvNames": "{}", "MaxCalls": 12, "MaxViews": 0, "Menu": '"subs"', "Invalid": "TRUE"}],
     "C06": [{"TagNames": '{"tag/a", "tag/b", "mark/m"}', "ConvNames": "{}", "MaxCalls": 7, "MaxViews": 1, "Menu": '"subs"', "Invalid": "FALSE"}],
     "C09": [{"TagNames": '{"tag/a", "mark/m"}', "ConvNames": '{"cv"}', "MaxCalls": 8, "MaxViews": 1, "Menu": '"conv"', "Invalid": "FALSE"},
